@@ -997,6 +997,20 @@ func (fr *Frame) applyHavoc(st, base *State, eff *loopEffects) {
 				u.assume(True, Forall([]Term{l}, Implies(And(conds...), Eq(Select(h, l, vs), Select(old, l, vs))), []Term{Select(h, l, vs)}))
 			}
 		}
+		// write-once variables (assigned at their declaration only, read afterwards - also by closures) keep their
+		// value whatever the body does to other cells of the same heap
+		for _, lc := range u.localCells {
+			if !lc.writeOnce {
+				continue
+			}
+			for _, c := range fr.leafCellsAt(lc.typ, lc.addr) {
+				if !eff.heapKeys[c.key] {
+					continue
+				}
+				vs := u.w.sortOf(c.typ)
+				u.assume(True, Eq(Select(st.heaps[c.key], c.idx, vs), Select(u.heap(base, c.key, vs), c.idx, vs)))
+			}
+		}
 	}
 	for k := range eff.ghost {
 		if t, ok := base.ghost[k]; ok {
